@@ -492,6 +492,10 @@ def build(recipe):
         soup.append(make_node(soup, k, xml))
     for op in recipe.get("ops", []):
         apply_op(soup, op, xml)
+    for path, v in recipe.get("known_xml", []):
+        node_at(soup, path).known_xml = v
+    if "root_is_xml" in recipe:
+        soup.is_xml = recipe["root_is_xml"]
     return soup
 
 
@@ -831,13 +835,7 @@ def fmt_tok(f):
     return "none" if f is None else cps(f)
 
 
-def subst_table(st_root, f):
-    """graph of the registry's substitution function on the strings of the case (only for functions the model does not
-    define itself: 'html', 'html5', 'html5-4.12')"""
-    if f in (None, "minimal"):
-        return "-"
-    e = E()
-    fn = e["HF"].REGISTRY[f].entity_substitution
+def case_strings(st_root):
     strings = set()
 
     def walk(st):
@@ -852,7 +850,18 @@ def subst_table(st_root, f):
             for k in st[6]:
                 walk(k)
     walk(st_root)
-    return ";".join(f"{dots(s)}>{dots(fn(s))}" for s in sorted(strings)) or "-"
+    return sorted(strings)
+
+
+def subst_table(st_root, f):
+    """registry formatters: the model computes every registered substitution function itself (substitute_xml: Model/Render;
+    substitute_html / substitute_html5: C09's Model/Entities over the generated tables) — no graph is shipped"""
+    return "-"
+
+
+def graph_table(st_root, fn):
+    """graph of a user-supplied substitution callable on the strings of the case"""
+    return ";".join(f"{dots(s)}>{dots(fn(s))}" for s in case_strings(st_root)) or "-"
 
 
 def elements_preorder(root):
@@ -1272,6 +1281,135 @@ def stream_corpus(ctx, batch):
         check_tree(ctx, batch, rc, "corpus", rc["kind"] == "parse", sub_elements=50, r=r)
 
 
+FN_KINDS = {"xml": 1, "html": 2, "html5": 3}
+
+
+def make_fn(name):
+    e = E()
+    if name == "xml":
+        return e["ES"].substitute_xml
+    if name == "html":
+        return e["ES"].substitute_html
+    if name == "html5":
+        return e["ES"].substitute_html5
+    if name == "upper":
+        return lambda s: s.upper()
+    if name == "brackets":
+        return lambda s: "[" + s + "]"
+    raise ValueError(name)
+
+
+def make_formatter_arg(desc):
+    """-> (python argument for decode(formatter=…), model token builder taking the element's struct)"""
+    e = E()
+    if desc[0] == "name":
+        k = desc[1]
+        return k, (lambda st: ("n:none" if k is None else "n:" + cps(k), "-"))
+    if desc[0] == "fn":
+        fn = make_fn(desc[1])
+        if desc[1] in FN_KINDS:
+            return fn, (lambda st: (f"c:{FN_KINDS[desc[1]]}", "-"))
+        return fn, (lambda st: ("c:9", graph_table(st, fn)))
+    _, lang, fname, vp, cd, eb = desc
+    fn = None if fname is None else make_fn(fname)
+    cls = {"html": e["HF"], "xml": e["XF"]}[lang]
+    obj = cls(entity_substitution=fn, void_element_close_prefix=vp, cdata_containing_tags=None if cd is None else set(cd),
+              empty_attributes_are_booleans=eb)
+    kind = 0 if fname is None else FN_KINDS.get(fname, 9)
+
+    def tok(st):
+        spec = (f"o:{kind}:{cps(obj.void_element_close_prefix or '')}:"
+                f"{';'.join(dots(x) for x in sorted(obj.cdata_containing_tags)) or '-'}:{int(bool(obj.empty_attributes_are_booleans))}")
+        return spec, (graph_table(st, fn) if kind == 9 else "-")
+    return obj, tok
+
+
+def rand_formatter_desc(r):
+    k = r.random()
+    if k < 0.4:
+        return ["name", r.choice(["minimal", "html", None, "html5", "html5-4.12", "nosuch", "xml", ""])]
+    if k < 0.65:
+        return ["fn", r.choice(["xml", "html", "html5", "upper", "brackets"])]
+    return ["obj", r.choice(["html", "xml"]), r.choice([None, "xml", "html", "html5", "upper"]),
+            r.choice(["/", "", " /", None, "//"]), r.choice([None, None, [], ["p"], ["script"], ["pre", "b", "style"]]),
+            r.random() < 0.4]
+
+
+def known_xml_chain(el):
+    chain, n = [], el
+    while n is not None:
+        chain.append(n.known_xml)
+        root = n
+        n = n.parent
+    return chain, bool(getattr(root, "is_xml", False))
+
+
+def stream_formatter_args(ctx, batch, n_trees):
+    """`decode(formatter=arg)` with every form of the argument (registry key incl. unknown ones -> KeyError, callable,
+    Formatter object with its own void prefix / cdata tags / boolean-attribute switch) on elements whose flavour is decided by
+    `known_xml` somewhere up the parent chain or by the root's `is_xml` attribute: formatter_for_name + _is_xml"""
+    e = E()
+    for t in range(n_trees):
+        r = ctx.rng("fmtargs", t)
+        recipe = gen_api_recipe(r, 0.0)
+        soup = build(recipe)
+        els = elements_preorder(soup)
+        settings = []
+        for i, el in enumerate(els):
+            if r.random() < 0.6:
+                path = []
+                n = el
+                while n.parent is not None:
+                    path.insert(0, n.parent.contents.index(n) if False else next(j for j, c in enumerate(n.parent.contents) if c is n))
+                    n = n.parent
+                settings.append([path, r.choice([None, None, True, False])])
+        recipe = dict(recipe, known_xml=settings, root_is_xml=r.random() < 0.5)
+        soup = build(recipe)
+        els = elements_preorder(soup)
+        if len(els) < 2:
+            continue
+        for i in sorted(r.sample(range(1, len(els)), min(3, len(els) - 1))):
+            el = els[i]
+            try:
+                st = struct(el)
+            except ValueError:
+                continue
+            chain, root_attr = known_xml_chain(el)
+            chain_tok = ".".join("N" if v is None else ("T" if v else "F") for v in chain) or "-"
+            for _ in range(3):
+                desc = rand_formatter_desc(r)
+                arg, tok = make_formatter_arg(desc)
+                try:
+                    real = "D:" + cps(el.decode(formatter=arg))
+                    if arg is None or isinstance(arg, str):
+                        c2 = el.decode_contents(formatter=arg)
+                        if not st[5] and el.contents and not real.endswith(cps(c2 + "</" + o_full(st) + ">")):
+                            ctx.violation("decode_contents(formatter) is not the contents part of decode(formatter)",
+                                          case={"recipe": recipe, "element": i, "formatter_desc": desc, "op": "fmtarg"},
+                                          expected=real, observed=c2, stream="fmtargs")
+                except KeyError:
+                    real = "KeyError"
+                a_tok, tbl = tok(st)
+                req = f"c05 top {int(root_attr)} {chain_tok} {a_tok} {tbl} {tree_tokens(st)}"
+                flav = "xml" if el._is_xml else "html"
+                ctx.count(f"fmtarg:{desc[0]}:{flav}:{'KeyError' if real == 'KeyError' else 'ok'}")
+
+                def on_reply(rep, real=real, req=req, desc=desc, i=i, recipe=recipe):
+                    if rep != real:
+                        ctx.corr_disagreements += 1
+                        u = lambda t: t if not t.startswith("D:") else ascii(uncps_local(t[2:]))
+                        ctx.violation("decode(formatter=arg): formatter resolution / rendering differs from the model",
+                                      case={"recipe": recipe, "element": i, "formatter_desc": desc, "op": "fmtarg", "request": req},
+                                      expected="model: " + u(rep), observed="real: " + u(real), model=rep, stream="fmtargs",
+                                      no_failing_input=True)
+                batch.add(req, on_reply)
+        ctx.case(None)
+
+
+def uncps_local(t):
+    return "" if t in ("-", "") else "".join(chr(int(x)) for x in t.split(","))
+
+
 def stream_table(ctx, batch):
     """exhaustive over the generated tables: every string class x every parent kind, under every formatter of both
     registries (render_checks runs all of them), both flavours — so a changed PREFIX/SUFFIX/registry entry that breaks a
@@ -1317,6 +1455,7 @@ def run(ctx: Ctx):
     stream_corpus(ctx, batch)
     stream_small(ctx, batch)
     stream_table(ctx, batch)
+    stream_formatter_args(ctx, batch, ctx.n(400, 4000))
     # (i) parsed documents
     n = ctx.n(2000, 18000)
     for i in range(n):
@@ -1379,6 +1518,18 @@ def replay(path):
         print("third rendering:  ", ascii(text3))
         if got != want or text2 != text3:
             rc = 1
+    elif c.get("op") == "fmtarg":
+        arg, tok = make_formatter_arg(c["formatter_desc"])
+        try:
+            real = "D:" + cps(el.decode(formatter=arg))
+        except KeyError:
+            real = "KeyError"
+        rep = Driver().ask([c["request"]])[0]
+        u = lambda t: t if not t.startswith("D:") else ascii(uncps_local(t[2:]))
+        print("formatter argument:", c["formatter_desc"])
+        print("model:", u(rep))
+        print("real: ", u(real))
+        rc = 0 if rep == real else 1
     elif c.get("op") == "detached":
         el.extract()
         after = el.decode(formatter=f)
